@@ -84,8 +84,12 @@ def main():
     build_log = "" if ok else log[-3000:]
     ob = obligations(prop)
     if not ok:
-        m = re.findall(r"File \"\./([^\"]+)\"", log)
-        broken.append(("coq-build", f"make failed in {sorted(set(m))}: " + log[-1200:]))
+        # the build is `make -k`: what matters for THIS property is its own theorem file (compiled again below,
+        # which fails if anything it depends on failed) and the correspondence / generated files
+        m = sorted(set(re.findall(r"File \"\./([^\"]+)\"", log)))
+        needed = [f for f in m if f.startswith(("Corr/", "Gen/", "Model/")) or f == f"Props/{prop}.v"]
+        if needed:
+            broken.append(("coq-build", f"make failed in {needed}: " + log[-1200:]))
     if not ob["ok"]:
         broken.append(("obligations", f"Props/{prop}.v does not check: " + ob["log"][-1200:]))
     gate = grep_gate()
